@@ -28,6 +28,7 @@ var families = map[string]famDef{
 	"format":    {"C14", famFormat, Runner{}},
 	"badroots":  {"C19", famBadRoots, Runner{}},
 	"backends":  {"C18", famBackends, Runner{}},
+	"flush":     {"C03", famFlush, exactRunner},
 	"filecrash": {"C17", famFileCrash, Runner{}},
 	"diffcost":  {"C15", famDiffCost, exactRunner},
 }
